@@ -21,7 +21,7 @@ From Coq Require Import List NArith Arith Bool Lia.
 From FV Require Import Common.EventLog Radix.RadixModel Radix.RadixBits Radix.RadixInv Radix.RadixSpec
   RadixConc.RAView RadixConc.ConcModel RadixConc.ConcProg RadixConc.ConcWriter RadixConc.ConcLog RadixConc.ConcStatic
   RadixConc.ConcStatic2 RadixConc.ConcStep RadixConc.ConcReader RadixConc.ConcSys RadixConc.ConcFound
-  RadixConc.ConcFoundDyn RadixConc.ConcSkel RadixConc.ConcTop Gen.RadixConcOrders.
+  RadixConc.ConcFoundDyn RadixConc.ConcSkel RadixConc.ConcTop RadixConc.ConcErase Gen.RadixConcOrders.
 Import ListNotations.
 Local Open Scope N_scope.
 
@@ -108,6 +108,33 @@ Theorem C10_deref_after_return : forall esz lsz wops scripts sched choices,
     exists j m v, rna (s_log S1) (f_view f) (LSlot e i) = RGot j m (f_view f) /\ mval m = VSlot (f_key f) v.
 Proof. intros esz lsz wops scripts sched choices. exact (top_deref actual esz lsz wops scripts sched choices actual_sufficient). Qed.
 Print Assumptions C10_deref_after_return.
+
+Definition ex_ops_e : list wop := [WInsert 5 1; WInsert 1152921504606846981 2; WInsert 21 3; WInsert 6 4; WErase 5].
+
+(* --- erase k only unpublishes: its whole micro-step program is ONE release store that clears k's bit in the leaf's mask;
+   it contains no destroy step and no write to the value's storage (the generated obligations skel_erase_ok /
+   skel_erase_no_destroy tie this to the source: erase() contains no p->~T() / destroy_at / destruct).  Hence the slot
+   keeps its last construction, stored under exactly k, across the erase: a reader that obtained the address before
+   the erase (or reads a stale mask) still reads an initialised object (C10_deref_after_return) until the CALLER, after
+   its grace period, destroys or re-constructs it. *)
+Theorem C10_erase_leaves_slot_constructed : forall esz lsz wops p k,
+  hist_okb esz lsz st0 wops = true -> nth_error wops p = Some (WErase k) ->
+  exists e en v,
+    find (bstate esz lsz wops p) k = Ok (Some (e, idxP k 15)) /\ nth_error (nodes (bstate esz lsz wops p)) e = Some en /\
+    op_steps esz lsz (bstate esz lsz wops p) (WErase k) = [MStoreMask e (clear_bit (n_mask en) (idxP k 15)) Release] /\
+    blog actual esz lsz wops (S p) = blog actual esz lsz wops p ++
+      [mk (LMask e) (VNum (clear_bit (n_mask en) (idxP k 15))) (is_rel (o_e_mask actual)) false] /\
+    (forall e' i', lastval (blog actual esz lsz wops (S p)) (LSlot e' i') = lastval (blog actual esz lsz wops p) (LSlot e' i')) /\
+    lastval (blog actual esz lsz wops p) (LSlot e (idxP k 15)) = Some (VSlot k v) /\
+    lastval (blog actual esz lsz wops (S p)) (LSlot e (idxP k 15)) = Some (VSlot k v).
+Proof. intros esz lsz wops p k H. exact (erase_leaves_slot actual esz lsz wops actual_sufficient H p k). Qed.
+Print Assumptions C10_erase_leaves_slot_constructed.
+
+Example C10_erase_example :
+  nth_error ex_ops_e 4 = Some (WErase 5) /\ hist_okb 1 2 st0 ex_ops_e = true /\
+  lastval (blog actual 1 2 ex_ops_e 5) (LSlot 0 5) = Some (VSlot 5 1) /\
+  find (bstate 1 2 ex_ops_e 5) 5 = Ok None.
+Proof. vm_compute. repeat split; reflexivity. Qed.
 
 (* --- a key that is present when the find starts and is not erased before it returns is found, at its address,
    whatever restructuring (splits at and below the root, insertions into the same leaf, other erases) happens
